@@ -37,10 +37,25 @@ def base_cfg(variant=0):
     if variant == 4:      # cli0 is a DEFAULT peer of the realm but not configured for the application (cli1 is)
         c["peers"][0].update(apps=[], default=True)
         c["peers"][1].update(persistent=False, addr=False)
+    if variant == 8:      # the persistent peer's reconnect deadline falls a few seconds after every failure
+        c["peers"][1]["rwait"] = 5
+    if variant == 6:      # realm names with capital letters, used as configured by everybody
+        c["realm"] = "Example.NET"
+        for p in c["peers"]:
+            p["realm"] = "Example.NET"
+    if variant == 7:      # the only way out is a DEFAULT peer that lives in ANOTHER realm than the node; the application has no peers
+        c["peers"][0].update(apps=[], default=True, realm="visited.example.org")
+        c["peers"][1].update(apps=[], persistent=False, addr=False)
+    if variant == 5:      # a node without any application
+        c["apps"] = []
+        for p in c["peers"]:
+            p["apps"] = []
     if variant == 3:      # one application whose peers live in different realms
         c["peers"][0]["realm"] = "other.example.org"      # cli0 (the focus connection's peer)
         c["peers"][1]["realm"] = "example.net"
         c["peers"][1].update(persistent=False, addr=False)
+        c["peers"].append(dict(name=HOSTS[2], realm="third.example.org", addr=False, persistent=False, always=False,
+                               cea=None, cer=None, dwa=None, idle=None, rwait=30, apps=[], default=False))
     return c
 
 
@@ -95,6 +110,8 @@ class Ctx:
     def recv(self, cid, spec):
         if not self.alive(cid) or (getattr(self, "pending_frag", None) and self.pending_frag[0] == cid):
             return None
+        if spec.get("kind") == "req" and "drealm" not in spec:
+            spec = dict(spec, drealm=self.cfg["realm"])      # addressed to the node's own realm, spelt as configured
         if "hbh" not in spec:
             h, e = self.ids()
             spec = dict(spec, hbh=h, e2e=e)
@@ -132,7 +149,7 @@ def act(cx, tok):
             a, c = acct, auth
         elif kind == "relayacct":      # nothing in common, relay id only among the accounting ids
             a, c = [999], [0xffffffff]
-        return cx.recv(f, dict(kind="cer", host=host, auth=a, acct=c)) is not None
+        return cx.recv(f, dict(kind="cer", host=host, auth=a, acct=c, vsai=kind == "vsai")) is not None
     if tok.startswith("cea_"):
         kind = tok[4:]
         c = next((x for x in cx.snap()["conns"] if x[0] == f), None)
@@ -151,9 +168,13 @@ def act(cx, tok):
         return cx.recv(f, spec) is not None
     if tok in ("dwr", "dwa", "dpr", "dpa"):
         return cx.recv(f, dict(kind=tok, host=cx.host_of(f))) is not None
+    if tok == "dwr_osid":        # a watchdog request that carries the PEER's Origin-State-Id
+        return cx.recv(f, dict(kind="dwr", host=cx.host_of(f), osid=1234567)) is not None
+    if tok == "dpa_err":         # the peer answers the DPR with a failure result
+        return cx.recv(f, dict(kind="dpa", host=cx.host_of(f), result=5012)) is not None
     if tok == "dwr0":
         return cx.recv(f, dict(kind="dwr", host=cx.host_of(f), hbh=0, e2e=cx.ids()[1])) is not None
-    if tok in ("req", "req0", "req_bad", "req_app", "req_realm", "req_unk", "req_raise", "req_unk_app"):
+    if tok in ("req", "req0", "req_bad", "req_app", "req_realm", "req_unk", "req_raise", "req_unk_app", "req_unk2", "req_unk2t", "req_app0", "req_t", "req_third"):
         spec = dict(kind="req", host=cx.host_of(f), app=app_ids[0] if app_ids else 4)
         if tok == "req0":
             spec.update(hbh=0, e2e=cx.ids()[1])
@@ -167,6 +188,17 @@ def act(cx, tok):
             spec["code"] = 8388000
         elif tok == "req_raise":
             spec["raises"] = True
+        elif tok in ("req_unk2", "req_unk2t"):   # the same with TWO Origin-Host AVPs (and the T flag)
+            spec["code"] = 8388000
+            spec["app"] = 777
+            spec["host2"] = "other.example.net"
+            spec["t"] = tok == "req_unk2t"
+        elif tok == "req_app0":        # application id 0 in the header, the application's id in the AVP only
+            spec["hdr_app"] = 0
+        elif tok == "req_t":           # a first-seen request that bears the T flag
+            spec["t"] = True
+        elif tok == "req_third":       # a realm in which only a peer without application / default role is known
+            spec["drealm"] = "third.example.org"
         elif tok == "req_unk_app":     # a command without a python class for an application nobody registered
             spec["code"] = 8388000
             spec["app"] = 777
@@ -238,12 +270,46 @@ def act(cx, tok):
         m.header.hop_by_hop_identifier = cx.ids()[0]
         cx.do(dict(ev="recv", cid=f, frames=[m.as_bytes()]))
         return True
-    if tok == "ans":
+    if tok in ("ans", "ans_exp"):
         if not cx.delivered:
             return False
         app, h, e, w, _cid = cx.delivered.pop(0)
         cx.answered.append(w)
-        cx.do(dict(ev="app_answer", app=app, msg=cx.g.make_answer(w)))
+        cx.do(dict(ev="app_answer", app=app, msg=cx.g.make_answer(w, experimental=tok == "ans_exp")))
+        return True
+    if tok == "ans_err":         # the application turns the request down: 3004 with the E bit
+        if not cx.delivered:
+            return False
+        app, h, e, w, _cid = cx.delivered.pop(0)
+        cx.answered.append(w)
+        a = cx.g.make_answer(w)
+        a.result_code = 3004
+        a.header.is_error = True
+        cx.do(dict(ev="app_answer", app=app, msg=a))
+        return True
+    if tok in ("stray", "stray_dwa_t"):   # an answer nobody waits for / a T-flagged DWA with the e2e id of an answered request
+        if not cx.alive(f):
+            return False
+        if tok == "stray":
+            h, e = cx.ids()
+            cx.do(dict(ev="recv", cid=f, frames=[NS.build_message(dict(kind="ans", hbh=h, e2e=e, host=cx.host_of(f)))]))
+            return True
+        if not cx.answered:
+            return False
+        from diameter.message import Message
+        q = Message.from_bytes(cx.answered[-1])
+        fr = bytearray(NS.build_message(dict(kind="dwa", hbh=cx.ids()[0], e2e=q.header.end_to_end_identifier, host=cx.host_of(f))))
+        fr[4] |= 0x10
+        cx.do(dict(ev="recv", cid=f, frames=[bytes(fr)]))
+        return True
+    if tok == "stray_t":         # an ANSWER bearing the T flag and the end-to-end id of an answered request
+        if not cx.answered or not cx.alive(f):
+            return False
+        from diameter.message import Message
+        q = Message.from_bytes(cx.answered[-1])
+        fr = bytearray(NS.build_message(dict(kind="ans", hbh=cx.ids()[0], e2e=q.header.end_to_end_identifier, host=cx.host_of(f))))
+        fr[4] |= 0x10
+        cx.do(dict(ev="recv", cid=f, frames=[bytes(fr)]))
         return True
     if tok == "ans_again":
         if not cx.answered:
@@ -271,15 +337,16 @@ def act(cx, tok):
         o = cx.do(dict(ev="stop", force=tok == "stopf", timeout=20))
         cx.stop_immediate = tok == "stopf" or not o["snap"]["conns"]
         return True
-    if tok in ("appreq", "appreq1"):
-        if cx.stopped or (tok == "appreq1" and len(cx.cfg["apps"]) < 2):
+    if tok in ("appreq", "appreq1", "appreq_v"):
+        if cx.stopped or (tok == "appreq1" and len(cx.cfg["apps"]) < 2) or not cx.cfg["apps"]:
             return False
         from diameter.message.commands import CreditControlRequest
         m = CreditControlRequest()
         m.session_id = "enum;%d" % len(cx.events)
         m.origin_host = cx.cfg["host"].encode()
-        m.origin_realm = b"example.net"
-        m.destination_realm = b"example.net"
+        m.origin_realm = cx.cfg["realm"].encode()
+        # appreq_v: addressed to the realm of the first configured peer (which may differ from the node's)
+        m.destination_realm = (cx.cfg["peers"][0]["realm"] if tok == "appreq_v" else cx.cfg["realm"]).encode()
         m.service_context_id = "ctx"
         m.cc_request_type = 1
         m.cc_request_number = 0
@@ -317,14 +384,14 @@ def act(cx, tok):
 
 THEMES = {
     # theme: (config variants, setup tokens, alphabet)
-    "handshake_in": ((0, 1, 2), ["accept"],
-                     ["cer_known", "cer_unknown", "cer_nocommon", "cer_relay", "cer_relayacct", "cer_swapped", "cea_ok", "dwr", "dpr", "req", "ans",
+    "handshake_in": ((0, 1, 2, 5), ["accept"],
+                     ["cer_known", "cer_vsai", "cer_unknown", "cer_nocommon", "cer_relay", "cer_relayacct", "cer_swapped", "cea_ok", "dwr", "dpr", "req", "ans",
                       "tdwa", "close", "accept_bg", "swap"]),
     "handshake_out": ((0, 1, 2), [],
                       ["cea_ok", "cea_upper", "cea_2002", "cea_3010", "cea_nohost", "cea_foreign", "cer_known1", "cer_known", "dwr", "dwa", "dpr", "req",
                        "tdwa", "t1", "close", "appreq"]),
     "ready": ((0, 1, 2), ["accept", "cer_known"],
-              ["dwr", "dwr0", "dwa", "dpr", "dpa", "req", "req0", "req_raise", "req_bad", "req_app", "req_realm", "req_unk", "retx", "ans",
+              ["dwr", "dwr0", "dwa", "dpr", "dpa", "req", "req0", "req_raise", "req_bad", "req_app", "req_realm", "req_unk", "req_unk2", "req_unk2t", "retx", "ans", "ans_exp",
                "ans_again", "t1", "tbig", "tdwa", "stall", "unstall", "stop", "stopf", "close", "appreq", "ansreq", "cea_ok",
                "cer_known", "accept_bg", "swap"]),
 }
@@ -332,10 +399,10 @@ THEMES = {
 
 # phased themes: a list of phases, each ("fixed", [tokens]) or ("any", alphabet, max length); every combination is run
 PHASED = {
-    "shutdown": ((0, 1), ["accept", "cer_known"],
+    "shutdown": ((0, 1, 8), ["accept", "cer_known"],
                  [("any", ["dwr", "req", "tbig", "stall", "accept_bg"], 2), ("fixed", ["stop"]),
-                  ("any", ["dpa", "tbig", "bg_cer", "unstall", "dwr"], 2)]),
-    "shutdown_deep": ((0, 1), ["accept", "cer_known"],
+                  ("any", ["dpa", "dpa_err", "tbig", "bg_cer", "unstall", "dwr"], 2)]),
+    "shutdown_deep": ((0, 1, 8), ["accept", "cer_known"],
                       [("any", ["dwr", "req", "tbig", "stall", "appreq", "accept_bg"], 2), ("fixed", ["stop"]),
                        ("any", ["dpa", "dwr", "req", "t1", "tbig", "unstall", "accept_bg", "close", "ans", "bg_cer"], 2)]),
     "disconnect": ((0, 1, 2), ["accept", "cer_known"],
@@ -343,33 +410,43 @@ PHASED = {
     "disconnect_deep": ((0, 1, 2), ["accept", "cer_known"],
                         [("any", ["tbig", "dpr", "dwa", "dwr", "req", "ans", "t1", "close", "appreq", "cea_ok"], 4)]),
     "watchdog": ((0, 1), ["accept", "cer_known"],
-                 [("any", ["tbig", "tdwa", "t1", "t3", "dwa", "dwr", "req", "dpr", "stall", "unstall", "appreq"], 3)]),
+                 [("any", ["tbig", "tdwa", "t1", "t3", "dwa", "dwr", "dwr_osid", "req", "dpr", "stall", "unstall", "appreq"], 3)]),
     # the capabilities exchange completes only after a timer pass has already looked at the connection
     "late_cer": ((1, 0), ["accept", "t1", "cer_known"],
                  [("any", ["tbig", "tdwa", "t1", "t3", "dwa", "dwr"], 3)]),
     # a peer that comes back long after its last message (per-peer statistics windows have expired)
     "comeback": ((0, 4), ["accept", "cer_known"],
                  [("any", ["req", "ans"], 2), ("fixed", ["close", "t1200", "accept", "cer_known"]), ("any", ["req", "dwr", "ans"], 2)]),
-    "default_peer": ((4,), ["accept", "cer_known", "accept_bg", "bg_cer"],
-                     [("any", ["req", "swap", "ans", "appreq", "req_app", "dwr"], 3)]),
+    "default_peer": ((4, 7), ["accept", "cer_known", "accept_bg", "bg_cer"],
+                     [("any", ["req", "swap", "ans", "appreq", "appreq_v", "req_app", "dwr"], 3)]),
     "partial_reads": ((0, 2), ["accept", "cer_known"],
                       [("any", ["req_plus_part", "frag", "frag_rest", "req", "ans", "dwr", "t1"], 3)]),
     "answers": ((0, 2), ["accept", "cer_known"],
-                [("any", ["req", "req0", "req_raise", "req_unk_app", "ans", "ans_again", "close", "dpr", "accept_bg", "swap", "cer_known", "retx"], 3)]),
+                [("any", ["req", "req0", "req_t", "req_app0", "req_raise", "req_unk_app", "req_unk2", "req_unk2t", "ans", "ans_exp", "ans_err", "stray_t", "ans_again", "close", "dpr", "accept_bg", "swap", "cer_known", "retx"], 3)]),
     "retransmit": ((0, 2), ["accept", "cer_known"],
-                   [("any", ["req", "ans", "retx", "retx_pending", "retx_old", "req_unk", "req_realm", "req_app", "t1"], 4)]),
+                   [("any", ["req", "ans", "ans_exp", "retx", "retx_pending", "retx_old", "req_unk", "req_realm", "req_app", "t1"], 4)]),
     # a request of origin A answered, then up to 3 answered requests of A / B (window size 2: eviction), then the T-flagged repeat
     "retransmit_two_origins": ((0,), ["accept", "cer_known"],
                                [("fixed", ["ra"]), ("any", ["ra", "rb", "t1"], 3), ("fixed", ["retx"]), ("any", ["retx", "rb"], 1)]),
     "two_peers": ((2, 0), ["accept", "cer_known", "accept_bg", "bg_cer"],
                   [("any", ["tbig", "tdwa", "t1", "dwa", "close", "swap", "dpr", "req", "ans", "appreq", "appreq1", "ansreq", "stall",
                             "unstall"], 3)]),
-    "realms": ((3,), ["accept", "cer_known", "accept_bg", "bg_cer"],
-               [("any", ["req", "req_other", "swap", "ans", "appreq", "req_app", "close", "dpr", "tbig"], 3)]),
+    "realms": ((3, 6), ["accept", "cer_known", "accept_bg", "bg_cer"],
+               [("any", ["req", "req_other", "req_third", "swap", "ans", "appreq", "req_app", "req_app0", "close", "dpr", "tbig"], 3)]),
     # the node itself keeps sending (requests, late answers) while the peer says nothing: only what is RECEIVED counts
     # as activity for the watchdog
     "busy_sender": ((0, 1), ["accept", "cer_known", "req"],
                     [("any", ["appreq", "t3", "tdwa", "dwa", "ans"], 4)]),
+    # the peer asks to disconnect, keeps the old connection open and comes back on a new one
+    "reconnect_after_dpr": ((0, 2), ["accept", "cer_known"],
+                            [("fixed", ["dpr", "accept_bg", "swap", "cer_known"]), ("any", ["swap", "close", "req", "t1", "tbig", "ans", "dwr"], 3)]),
+    # a request is pending when a second connection presents the same peer's name and is refused / elected
+    "refused_twin": ((0, 2), ["accept", "cer_known"],
+                     [("fixed", ["req", "accept_bg", "swap"]), ("any", ["cer_known", "cer_nocommon", "swap", "ans", "close", "t1"], 4)]),
+    # after a request was answered the peer sends nothing but ANSWERS (stray ones, T-flagged ones repeating the answered
+    # end-to-end id): none of them may draw an answer
+    "answers_only": ((0, 2), ["accept", "cer_known"],
+                     [("fixed", ["req", "ans"]), ("any", ["stray_t", "stray_dwa_t", "stray", "dwa", "dpa"], 3)]),
     "fragments": ((0, 1), ["accept", "cer_known"],
                   [("any", ["frag", "frag_rest", "t1", "tdwa", "tbig", "dwr"], 4)]),
 }
